@@ -260,7 +260,8 @@ FLOW_FUNCS = ['__config_read', 'config_read', 'config_read_string', 'config_read
               'config_setting_set_int_elem', 'config_setting_set_int64_elem', 'config_setting_set_float_elem',
               'config_setting_set_bool_elem', 'config_setting_set_string_elem',
               '__config_list_search', 'config_setting_lookup_const', 'config_setting_index', 'config_setting_get_elem',
-              'config_setting_get_member']
+              'config_setting_get_member', '__config_setting_destroy', '__config_list_destroy', 'config_setting_set_string',
+              'config_set_include_dir']
 # the include stack (lib/scanctx.c)
 FLOW_FUNCS_SCANCTX = ['libconfig_scanctx_push_include', 'libconfig_scanctx_next_include_file', 'libconfig_scanctx_pop_include',
                       'libconfig_scanctx_cleanup', 'libconfig_scanctx_init', 'libconfig_scanctx_current_filename']
